@@ -1067,12 +1067,27 @@ class DiskRefsContainer(RefsContainer):
             # they would stand in the way of a ref of that name
             self._remove_empty_parents(ref)
 
-    def _write_packed_refs(self, new_refs: Mapping[Ref, ObjectID | None]) -> None:
-        """Rewrite packed-refs with the given entries set or removed."""
+    def _write_packed_refs(
+        self,
+        new_refs: Mapping[Ref, ObjectID | None]
+        | Callable[[], Mapping[Ref, ObjectID | None]],
+    ) -> Mapping[Ref, ObjectID | None]:
+        """Rewrite packed-refs with the given entries set or removed.
+
+        Args:
+          new_refs: The entries, or a function that is called once the
+            packed-refs lock is held and returns them.
+        Returns: The entries that were written.
+        """
         path = os.path.join(self.path, b"packed-refs")
 
         try:
             with GitFile(path, "wb") as f:
+                if callable(new_refs):
+                    new_refs = new_refs()
+                    if not new_refs:
+                        f.abort()
+                        return new_refs
                 # reread cached refs from disk, while holding the lock
                 packed_refs = self.get_packed_refs().copy()
 
@@ -1093,6 +1108,7 @@ class DiskRefsContainer(RefsContainer):
             # lock is released but before the stat. Reload on the next access
             # instead.
             self._invalidate_packed_refs_cache()
+        return new_refs
 
     def _prune_loose_ref(self, ref: Ref, target: ObjectID) -> None:
         """Remove the loose file of a ref that has just been packed.
@@ -1539,27 +1555,33 @@ class DiskRefsContainer(RefsContainer):
         Args:
             all: If True, pack all refs. If False, only pack tags.
         """
-        refs_to_pack: dict[Ref, ObjectID | None] = {}
-        for ref in self.allkeys():
-            if ref == HEADREF:
-                # Never pack HEAD
-                continue
-            if all or ref.startswith(LOCAL_TAG_PREFIX):
-                contents = self.read_ref(ref)
-                if not contents or contents.startswith(SYMREF):
-                    # packed-refs cannot represent symbolic refs (git
-                    # pack-refs leaves them loose); packing the resolved
-                    # value would silently turn the symref into a direct ref
-                    continue
-                refs_to_pack[ref] = ObjectID(contents)
 
-        if refs_to_pack:
-            self._write_packed_refs(refs_to_pack)
-            # The values were read without holding the refs' locks: a loose
-            # file may go only if it still holds the value that was packed.
-            for ref, target in refs_to_pack.items():
-                if target is not None:
-                    self._prune_loose_ref(ref, target)
+        def collect() -> dict[Ref, ObjectID | None]:
+            refs_to_pack: dict[Ref, ObjectID | None] = {}
+            for ref in self.allkeys():
+                if ref == HEADREF:
+                    # Never pack HEAD
+                    continue
+                if all or ref.startswith(LOCAL_TAG_PREFIX):
+                    contents = self.read_ref(ref)
+                    if not contents or contents.startswith(SYMREF):
+                        # packed-refs cannot represent symbolic refs (git
+                        # pack-refs leaves them loose); packing the resolved
+                        # value would silently turn the symref into a direct ref
+                        continue
+                    refs_to_pack[ref] = ObjectID(contents)
+            return refs_to_pack
+
+        # The values are read while holding the packed-refs lock: read
+        # before, they can be older than what another pack_refs has packed
+        # (and pruned the loose file of) in the meantime, and writing them
+        # would bring the older value back.
+        refs_to_pack = self._write_packed_refs(collect)
+        # The values were read without holding the refs' locks: a loose
+        # file may go only if it still holds the value that was packed.
+        for ref, target in refs_to_pack.items():
+            if target is not None:
+                self._prune_loose_ref(ref, target)
 
 
 def _split_ref_line(line: bytes) -> tuple[ObjectID, Ref]:
